@@ -520,7 +520,7 @@ def rule_4(ctx):
 ORDER_CELLS = {
     'A1': 5, 'A2': 0, 'A3': 7.5, 'A4': 'abc', 'A5': True, 'B1': '=A1+1', 'B2': '=A2*2', 'B3': '=A3-1', 'C1': '=B1*2+B1', 'D1': '=SUM(B1:B3)+A2',
     'E1': '=D1-C1', 'F1': '=IF(A2>0,B1,C1)', 'G1': '=AND(B1:B3)', 'H1': '=SUM(A1:A3,B1:B3)', 'I1': '=A4&A1&A5', 'J1': '=ABS(B3-A1*3)',
-    'K1': '=IF(A5,LEN(A4),0)+ABS(-A1)', 'L1': '=MAX(A1:A3)>=MIN(B1:B3)', 'M1': '=1/A2', 'N1': '=IFERROR(M1,B1)', 'O1': '=ABS(A1)&LEFT(A4,2)',
+    'K1': '=IF(A5,LEN(A4),0)+ABS(-A1)', 'L1': '=MAX(A1:A3)>=MIN(B1:B3)', 'M1': '=1/A2', 'N1': '=IF(ISERROR(M1),B1,M1)', 'O1': '=ABS(A1)&LEFT(A4,2)',
 }
 _ORDER_ADDRS = ['B1', 'C1', 'D1', 'E1', 'F1', 'G1', 'H1', 'I1', 'J1', 'K1', 'L1', 'M1', 'N1', 'O1']
 
